@@ -88,6 +88,17 @@ theorem reply_matches_frappy (s : St String) (h : Reachable request2reply true s
 theorem no_parking_frappy (s : St String) (h : Reachable request2reply true s) : NoParking request2reply s :=
   no_parking _ table_injective s h
 
+/-- **no spurious wake-up** (every table, with or without the request lock, every interleaving): in every reachable
+state, as long as no shutdown / loss of the connection has begun, no caller's event has been set without a reply and no
+entry is held for that - so no caller can leave `get_reply` with "connection closed before reply" on a healthy
+connection.  The model gives every entry a wake-up of its own (`rxSetEvent` delivers to the popped entry, `closeSet i` /
+`selfRelease i` name the entry); an implementation that shares an event between two entries of one thread is not a
+refinement of it, and the monitor (`judgeCaller`: `spuriousConnError`, judged at the state in which the caller
+returned) reports the run. -/
+theorem no_spurious_release {α : Type} [DecidableEq α] (tbl : List (α × α)) (locked : Bool) (s : St α)
+    (h : Reachable tbl locked s) : NoSpuriousRelease s :=
+  reachable_noSpur h
+
 /-! ### counter-traces (proved on the model with the repository's table) -/
 
 def rd (sp : String) : Req String := ⟨"read", some sp⟩
@@ -391,6 +402,39 @@ example : (match Frappy.Client.Conn.run {} [.peerRst, .call .readline .closed, .
     ∧ connFirstBad {} [.peerRst, .call .readline .closed, .call .shutdown (.otherErr "OSError")] 0 = some 2 := by
   decide
 
+/-- **no line is lost, garbled or reordered by the framing**: along every trace of the connection model - the peer's
+lines arriving whole or in segments (`peerPart`) with `readline` calls returning `None` in between, i.e. with pauses
+longer than the inter-byte time-out - the lines `readline` hands out are exactly the first `read` lines the peer sent,
+in order, and never more than were sent. -/
+theorem lines_in_order (evs : List Ev) (s : St) (h : Frappy.Client.Conn.run {} evs 0 = .ok s) :
+    linesOf evs = List.range s.read ∧ s.read ≤ s.sent := by
+  have h1 := (Frappy.Client.Conn.lines_in_order_from evs {} s 0 h).2
+  refine ⟨by simpa [List.range_eq_range'] using h1, ?_⟩
+  obtain ⟨_, hr⟩ := Frappy.Client.Conn.rel_of_run evs {} s {} 0 Frappy.Client.Conn.rel_init h
+  exact hr.le
+
+/-- non-vacuity: a line arrives in two segments with an idle `readline` in between (the pause exceeds the inter-byte
+time-out), then a second line in three segments; both are handed out whole and in order -/
+example : (match Frappy.Client.Conn.run {} [.peerPart, .call .readline .nothing, .call .readline .nothing, .peerSend,
+      .call .readline (.line 0), .peerPart, .call .readline .nothing, .peerPart, .peerSend, .call .readline (.line 1),
+      .call .readline .nothing] 0 with
+    | .ok s => s.read == 2 && s.sent == 2 && !s.part
+    | .error _ => false) = true
+    ∧ connFirstBad {} [.peerPart, .call .readline .nothing, .peerSend, .call .readline (.line 0)] 0 = none := by
+  decide
+
+/-- sensitivity: a `readline` that forgets the first segment hands out the tail as a line the peer never sent - refused by
+the model and a breach of the contract at that call; one that swallows the whole line and goes on returning `None`
+is refused and flagged as well (a complete line is waiting) -/
+example :
+    connFirstBad {} [.peerPart, .call .readline .nothing, .peerSend, .call .readline (.otherErr "unknown line")] 0 = some 3
+    ∧ (match Frappy.Client.Conn.run {} [.peerPart, .call .readline .nothing, .peerSend,
+          .call .readline (.otherErr "unknown line")] 0 with | .error i => i == 3 | .ok _ => false) = true
+    ∧ connFirstBad {} [.peerPart, .call .readline .nothing, .peerSend, .call .readline .nothing] 0 = some 3
+    ∧ (match Frappy.Client.Conn.run {} [.peerPart, .call .readline .nothing, .peerSend, .call .readline .nothing] 0 with
+        | .error i => i == 3 | .ok _ => false) = true := by
+  decide
+
 end
 
 /-! ## the life cycle across connections: connect(), reconnect threads, disconnect() -/
@@ -573,6 +617,15 @@ def traceGood : List (Label String) :=
 example : checkRun request2reply true traceGood
     (fun s => s.delivered.length == 3 && replyMatchesB request2reply s && noDoubleDeliveryB s
       && noParkingB request2reply s && s.pending.isEmpty && s.active.isEmpty) = true := by
+  decide +kernel
+
+/-- non-vacuity of `no_spurious_release`: the good trace (three requests, one parked and requeued) reaches a state that is not closing and in which
+three callers have been woken - all with a reply; after a `disconnect` has begun and released a queued request the
+premise is false and `released` is not empty -/
+example : checkRun request2reply true traceGood
+    (fun s => !s.closing && s.delivered.length == 3 && s.released.isEmpty && s.relHold.isEmpty) = true
+    ∧ checkRun request2reply true [.put (rd "m:p"), .closeBegin, .closeTxq, .closeSet 0]
+        (fun s => s.closing && s.released == [0]) = true := by
   decide +kernel
 
 end Frappy.Props.C11
